@@ -164,8 +164,8 @@ static void do_E(char **save){
   dts->s1.year=2020; dts->s1.month=1; dts->s1.day=2; dts->s1.hour=3; dts->s1.minute=4; dts->s1.second=5;
   int rc = 0, s;
   for(s=0;s<nsub && rc==0;s++){
-    char *toks[8192]; int nt=0; char *tk;
-    while((tk=strtok_r(NULL," ",save)) && strcmp(tk,"|")) { if(nt<8192) toks[nt++]=tk; }
+    static char *toks[200000]; int nt=0; char *tk;
+    while((tk=strtok_r(NULL," ",save)) && strcmp(tk,"|")) { if(nt<200000) toks[nt++]=tk; }
     h_aborted=0; h_abort_armed=1; exit_called=0; exit_armed=1;
     if(setjmp(h_abort_jmp)==0 && setjmp(exit_jmp)==0){
       int pos = bufr_create_datasubset(dts);
@@ -260,7 +260,13 @@ int main(void){
   while((line=h_getline())){
     char *save=NULL; char *tok=strtok_r(line," ",&save);
     if(!tok) { printf("\n"); continue; }
-    if(!strcmp(tok,"TABLES")){ char *a=strtok_r(NULL," ",&save), *b=strtok_r(NULL," ",&save); load_tables(a,b); printf("TABLES ok\n"); }
+    if(!strcmp(tok,"MTABLES")){ /* master tables from explicit files (other shipped versions) */
+      char *a=strtok_r(NULL," ",&save), *b=strtok_r(NULL," ",&save);
+      if(tables) bufr_free_tables(tables);
+      tables = bufr_create_tables();
+      int r1 = bufr_load_m_tableB(tables,a), r2 = bufr_load_m_tableD(tables,b);
+      printf("MTABLES %d %d\n", r1, r2); }
+    else if(!strcmp(tok,"TABLES")){ char *a=strtok_r(NULL," ",&save), *b=strtok_r(NULL," ",&save); load_tables(a,b); printf("TABLES ok\n"); }
     else if(!strcmp(tok,"E")) do_E(&save);
     else if(!strcmp(tok,"T")) do_T(&save);
     else if(!strcmp(tok,"D")) do_D(&save);
